@@ -3,6 +3,8 @@ enumerated text in its context, render it with the real code and compare text
 and evaluation log with the set of behaviours the specification allows."""
 from __future__ import annotations
 
+from harness import REPO_SRC  # noqa: E402
+
 import ast
 import html
 import json
@@ -207,7 +209,7 @@ def expected(rec, beh, exprs):
 
 
 def _chunk(groups, seed, textfile):
-    sys.path.insert(0, "/repo/src")
+    sys.path.insert(0, REPO_SRC)
     from chameleon import PageTemplate, PageTextTemplate
     rnd = random.Random(seed)
     n = skipped = 0
